@@ -691,6 +691,42 @@ class Prov:
                     tag = None
                     out.append((t, path))
                     return
+            if tag is None and name and 'mapping' not in self.stop_tags and name.split('::')[-1] in ('map_or_else', 'map_or') \
+                    and any(name.endswith(x) for x in ('Option::map_or_else', 'Option::map_or', 'Result::map_or_else', 'Result::map_or')):
+                # `recv.map_or_else(default_fn, |x| ..)` / `recv.map_or(default, |x| ..)`: the result is either the default (a value, or what a crate-local
+                # function / closure without use of its argument returns) or what the closure returns for the receiver's payload
+                args = self.args_of(t)
+                if len(args) == 3:
+                    steps = (('v', 'Some'), ('f', 0)) if 'Option::' in name else (('v', 'Ok'), ('f', 0))
+                    recv = args[0]
+                    for st in steps:
+                        recv = self._variant(recv, st[1]) if st[0] == 'v' else self._field(recv, st[1])
+
+                    def fn_body(a):
+                        for cr, _cp in self._roots_nested(a):
+                            cu = self.unbound(cr)
+                            if cu[0] == 'agg' and self._agg_rv(cu)['adt'] == 'closure':
+                                return self.F.fns.get(self._agg_rv(cu)['adt_id']), True
+                            if cr[0] == 'const' and len(cr) > 3:
+                                ct = self.call_term(self.unbound(t))
+                                for op in ct['args']:
+                                    if op.get('k') == 'const' and op.get('fn_id') in self.F.fns and op.get('fn') == cr[3]:
+                                        return self.F.fns[op['fn_id']], False
+                        return None, False
+                    mbody, _ = fn_body(args[2])
+                    handled = mbody is not None
+                    if handled:
+                        if name.endswith('map_or'):
+                            self._root(args[1], path, depth - 1, out)
+                        else:
+                            dbody, is_clo = fn_body(args[1])
+                            if dbody is not None:
+                                self._root(self.subst(self._local_whole(dbody, 0), dbody.id, [('param', dbody.id, 1)] if is_clo else []), path, depth - 1, out)
+                            else:
+                                handled = False
+                    if handled:
+                        self._root(self.subst(self._local_whole(mbody, 0), mbody.id, [('param', mbody.id, 1), recv]), path, depth - 1, out)
+                        return
             if tag is None and name and 'mapping' not in self.stop_tags:
                 # value-mapping combinators with a closure: the payload of the result is what the closure returns (with the closure's parameter bound to
                 # the receiver's payload, in this calling context); the other variant passes through from the receiver
